@@ -169,3 +169,19 @@ def contacts(polys):
             if i < j and crosses(polys[i], polys[j]):
                 return True
     return False
+
+
+def dist_to_curves(p, shape):
+    """float distance from point p to the boundary of a (polygonal) shapepy shape"""
+    import math
+    best = float("inf")
+    px, py = float(p[0]), float(p[1])
+    for j in getattr(shape, "jordans", ()):
+        for sg in j.segments:
+            a, b = sg.ctrlpoints[0], sg.ctrlpoints[-1]
+            ax, ay, bx, by = float(a[0]), float(a[1]), float(b[0]), float(b[1])
+            dx, dy = bx - ax, by - ay
+            n2 = dx * dx + dy * dy
+            t = 0.0 if n2 == 0 else max(0.0, min(1.0, ((px - ax) * dx + (py - ay) * dy) / n2))
+            best = min(best, math.hypot(px - ax - t * dx, py - ay - t * dy))
+    return best
